@@ -336,6 +336,15 @@ def run_impl_only(prop, lines, tag="oracle"):
     return [res.get(i, "missing") for i in range(len(lines))]
 
 
+def run_sub(args, timeout=3600):
+    """run a harness subcommand, return its stdout lines"""
+    p = subprocess.run([VHARNESS] + [str(a) for a in args], stdout=subprocess.PIPE, stderr=subprocess.PIPE, text=True,
+                       timeout=timeout)
+    if p.returncode != 0:
+        raise BuildError(f"vharness {args} failed rc={p.returncode}: {p.stderr[-2000:]}")
+    return p.stdout.splitlines()
+
+
 def same(line, model, impl):
     """correspondence relation of two result lines"""
     if line.split(" ", 1)[0] == "F":
